@@ -32,6 +32,14 @@ draws).  Compared: the full 64-byte reference, the number of Puts and the digest
 through `EncUpload.encGet` (the decrypting getter, memoised per reference: every chunk is decrypted
 once at `open`).
 
+`new synth <seed> <size> <period>`: a *synthetic* encrypted file for the reader only (no upload): the
+canonical tree of a `size`-byte periodic content with 4096 references of 64 bytes per intermediate
+chunk, addresses `keccak("A" ‖ le64 off ‖ le64 span)` (the joiner never re-hashes), keys
+`keccak("K" ‖ le64 off ‖ le64 span)`, zero padding; chunks are produced on demand from their
+position by the encryption model, so files beyond 1 GiB (two intermediate levels with the real
+constants) can be read through the joiner model and the real joiner.  `readall` answers
+`noreadall` there.
+
 The chunk reference function is `fastBmt` (ByteArray BMT over `Driver.Fast.keccak`), memoised per
 case on the chunk content.  It is cross-checked against the list model `Aurora.Cac.hashWith` by the
 `selftest` op.
@@ -88,13 +96,63 @@ def keccakL (b : Bytes) : Bytes := (Driver.Fast.keccak ⟨b.toArray⟩).toList
 def encP : Nat := 262144
 def encR : Nat := 64
 
-inductive Mode | none | plain | enc | small (c b : Nat) | encsmall (c b : Nat)
+inductive Mode | none | plain | enc | small (c b : Nat) | encsmall (c b : Nat) | synth
 deriving Repr, DecidableEq
 
 def Mode.isEnc : Mode → Bool
   | .enc => true
   | .encsmall _ _ => true
+  | .synth => true
   | _ => false
+
+/-! ### synthetic encrypted files (reader only) -/
+
+structure Synth where
+  pat : Array UInt8                         -- one period of the content
+  size : Nat
+  index : Std.HashMap Bytes (Nat × Nat)     -- address ↦ position (offset, span)
+
+def synthAddr (off span : Nat) : Bytes := keccakL ([0x41] ++ Aurora.Cac.le64 off ++ Aurora.Cac.le64 span)
+def synthKey (off span : Nat) : Bytes := keccakL ([0x4b] ++ Aurora.Cac.le64 off ++ Aurora.Cac.le64 span)
+
+/-- size of a full child and number of children of the canonical node of span `s > C` -/
+def synthKids (s : Nat) : Nat × Nat :=
+  let h := (List.range 8).find? (fun h => s ≤ C * 4096 ^ (h + 1)) |>.getD 8
+  let fl := C * 4096 ^ h
+  (fl, (s + fl - 1) / fl)
+
+/-- all positions of the canonical tree below `(off, span)` -/
+def synthPositions : Nat → Nat → Nat → List (Nat × Nat)
+  | 0, _, _ => []
+  | fuel + 1, off, span =>
+    if span ≤ C then [(off, span)]
+    else
+      let (fl, k) := synthKids span
+      (off, span) :: (List.range k).flatMap (fun i => synthPositions fuel (off + i * fl) (min fl (span - i * fl)))
+
+def Synth.mk' (seed size period : Nat) : Synth :=
+  { pat := (Driver.genBytes seed period).toArray, size := size,
+    index := (synthPositions 9 0 size).foldl (fun m p => m.insert (synthAddr p.1 p.2) p) {} }
+
+/-- the plain payload of the chunk at a position -/
+def Synth.payload (sy : Synth) (off span : Nat) : Bytes :=
+  if span ≤ C then (List.range span).map (fun i => sy.pat[(off + i) % sy.pat.size]!)
+  else
+    let (fl, k) := synthKids span
+    (List.range k).flatMap (fun i =>
+      let o := off + i * fl
+      let s := min fl (span - i * fl)
+      synthAddr o s ++ synthKey o s)
+
+/-- the stored (encrypted) chunk for an address: the encryption model on `span ‖ payload` -/
+def Synth.lookup (sy : Synth) (a : Bytes) : Option Bytes :=
+  match sy.index.get? a with
+  | none => none
+  | some (off, span) =>
+    let pl := sy.payload off span
+    let c := Aurora.EncUpload.encT keccakL encP encR (synthKey off span) (List.replicate (encP - pl.length) 0)
+      (Aurora.Cac.le64 span ++ pl)
+    some (c.1 ++ c.2)
 
 structure St where
   mode : Mode := .none
@@ -109,6 +167,7 @@ structure St where
   failed : Bool := false
   j : Option J := none
   cache : Std.HashMap Bytes (Except Aurora.Joiner.Err Bytes) := {}   -- encrypted mode: `encGet`, memoised
+  synth : Option Synth := none
 
 def fnv (bs : Bytes) : UInt64 :=
   bs.foldl (fun h b => (h ^^^ b.toUInt64) * 0x100000001b3) 0xcbf29ce484222325
@@ -166,7 +225,10 @@ def readOut (n : Nat) (err : Option IoErr) (mem : Bytes) : String :=
   let tail := if (mem.drop n).all (· == 0xEE) then "clean" else "dirty"
   s!"{n} {e} {desc} {tail}"
 
-def lookupFn (st : St) : Bytes → Option Bytes := fun a => st.store.get? a
+def lookupFn (st : St) : Bytes → Option Bytes :=
+  match st.synth with
+  | some sy => sy.lookup
+  | none => fun a => st.store.get? a
 
 def encGetRaw (st : St) : Bytes → Except Aurora.Joiner.Err Bytes :=
   Aurora.EncUpload.encGet keccakL encP encR Aurora.Tree.hashBytes (lookupFn st)
@@ -240,6 +302,13 @@ def step (st : St) (opl : List String) : St × String :=
   match op with
   | ["new"] => ({ mode := .plain }, "ok")
   | ["new", "enc"] => ({ mode := .enc }, "ok")
+  | ["new", "synth", seed, size, period] =>
+    match seed.toNat?, size.toNat?, period.toNat? with
+    | some seed, some size, some period =>
+      if period = 0 ∨ period > C ∨ size > 16 * C * 4096 then (st, "bad-op") else
+      ({ mode := .synth, synth := some (Synth.mk' seed size period), summed := true,
+         root := some (synthAddr 0 size ++ synthKey 0 size) }, "ok")
+    | _, _, _ => (st, "bad-op")
   | ["new", "encsmall", c, b] =>
     match c.toNat?, b.toNat? with
     | some c, some b => if c = 0 ∨ c > C ∨ b < 2 ∨ encR * b > encP then (st, "bad-op") else ({ mode := .encsmall c b }, "ok")
@@ -312,7 +381,9 @@ def step (st : St) (opl : List String) : St × String :=
       | .small _ _ => (st, "nojoin")
       | .encsmall _ _ => (st, "nojoin")
       | _ =>
-        let st := if st.mode.isEnc then { st with cache := warm st depthFuel ref st.cache } else st
+        -- synthetic files: only the root and its children are memoised (the tree is not walked)
+        let st := if st.mode = .synth then { st with cache := warm st 2 ref st.cache }
+          else if st.mode.isEnc then { st with cache := warm st depthFuel ref st.cache } else st
         match Aurora.Joiner.new (getFn st) ref with
         | .error _ => (st, "err")
         | .ok j => ({ st with j := some j }, s!"ok {j.size}")
@@ -337,6 +408,7 @@ def step (st : St) (opl : List String) : St × String :=
         ({ st with j := some j' }, readOut r.n r.err r.mem)
       | _, _ => (st, "bad-op")
     | ["readall"] =>
+      if st.mode = .synth then (st, "noreadall") else
       -- `file.JoinReadAll`: ⌈size/C⌉ times `Read` into a C-byte buffer; any error (EOF included) aborts
       let iters := (j.size + C - 1) / C
       let (j', tot, dig, ok) := (List.range iters).foldl (fun (acc : J × Nat × UInt64 × Bool) _ =>
